@@ -99,7 +99,7 @@ M = [
  ("cutoff-1000", "src/core.rs",
   "const DOUBLE_WIDTH_CUTOFF: char = '\\u{1100}';", "const DOUBLE_WIDTH_CUTOFF: char = '\\u{1000}';", ["C10"]),
  ("break-apart-width-gt0-removed", "src/core.rs",
-  "if width > 0 && width + ch_width(ch) > line_width {", "if idx > offset && width + ch_width(ch) > line_width {", ["C12"]),
+  "if width > 0 && width + ch_width(ch) > line_width {", "if idx > offset && width + ch_width(ch) > line_width {", ["C12", "C13"]),
  ("break-apart-no-escape-skip", "src/core.rs",
   "                if skip_ansi_escape_sequence(ch, &mut char_indices.by_ref().map(|(_, ch)| ch)) {\n                    continue;\n                }\n\n                if width > 0",
   "                if width > 0", ["C12", "C13"]),
